@@ -274,6 +274,11 @@ Definition set_goodbye (s : sess) (v : bool) : sess :=
   {| opened := opened s; transport := transport s; topen := topen s; sid := sid s; sdetails := sdetails s;
      goodbye_sent := v; next_id := next_id s; pend := pend s; subs := subs s; regs := regs s;
      invs := invs s; queue := queue s; next_fut := next_fut s; done := done s; issued := issued s; lost := lost s; reacts := reacts s; failnext := failnext s |}.
+(* join(): the per-session state starts afresh: closing-handshake flag down, request ids from 1 again *)
+Definition set_join (s : sess) : sess :=
+  {| opened := opened s; transport := transport s; topen := topen s; sid := sid s; sdetails := sdetails s;
+     goodbye_sent := false; next_id := 0; pend := pend s; subs := subs s; regs := regs s;
+     invs := invs s; queue := queue s; next_fut := next_fut s; done := done s; issued := issued s; lost := lost s; reacts := reacts s; failnext := failnext s |}.
 Definition set_pend (s : sess) (v : list req) : sess :=
   {| opened := opened s; transport := transport s; topen := topen s; sid := sid s; sdetails := sdetails s;
      goodbye_sent := goodbye_sent s; next_id := next_id s; pend := v; subs := subs s; regs := regs s;
@@ -451,20 +456,22 @@ Definition api_step (cfg : ucfg) (s : sess) (o : op) : sess * list out :=
           let '(o1, ok) := send_req cfg s1 (MPublish id uri a kw ack excl) in
           (s1, o1 ++ [if ok then ApiReturned None else ApiRaised (send_exn s1)])
   | ASubscribe uri o =>
-      (* subscribe(): guard; _subscribe: id; SubscribeRequest recorded; send (a failing send leaves the record) *)
+      (* subscribe(): guard; _subscribe: id; SubscribeRequest recorded; send (a failing send takes the record back) *)
       if negb (transport s) then (s, [ApiRaised XTransportLost])
       else
         let '(s1, id, f) := new_request s KSubscribe None uri in
         let '(o1, ok) := send_req cfg s1 (MSubscribe id uri (match o with Some c => opt_default (so_match c) | None => 0 end)
                                                  (match o with Some c => so_get_retained c | None => None end)) in
-        (s1, o1 ++ [if ok then ApiReturned (Some f) else ApiRaised (send_exn s1)])
+        if ok then (s1, o1 ++ [ApiReturned (Some f)])
+        else (drop_request s1 KSubscribe id f, o1 ++ [ApiRaised (send_exn s1)])
   | ARegister uri o =>
       if negb (transport s) then (s, [ApiRaised XTransportLost])
       else
         let '(s1, id, f) := new_request s KRegister None uri in
         let '(o1, ok) := send_req cfg s1 (MRegister id uri (match o with Some c => opt_default (ro_match c) | None => 0 end)
                                                 (match o with Some c => opt_default (ro_invoke c) | None => 0 end)) in
-        (s1, o1 ++ [if ok then ApiReturned (Some f) else ApiRaised (send_exn s1)])
+        if ok then (s1, o1 ++ [ApiReturned (Some f)])
+        else (drop_request s1 KRegister id f, o1 ++ [ApiRaised (send_exn s1)])
   | AUnregister h =>
       match reg_id_of s h with
       | None => (s, [ApiRaised XNoObject])
@@ -477,7 +484,8 @@ Definition api_step (cfg : ucfg) (s : sess) (o : op) : sess * list out :=
               else
                 let '(s1, id, f) := new_request s KUnregister None regid in
                 let '(o1, ok) := send_req cfg s1 (MUnregister id regid) in
-                (s1, o1 ++ [if ok then ApiReturned (Some f) else ApiRaised (send_exn s1)])
+                if ok then (s1, o1 ++ [ApiReturned (Some f)])
+                else (drop_request s1 KUnregister id f, o1 ++ [ApiRaised (send_exn s1)])
           end
       end
   | _ => (s, [])
@@ -587,7 +595,7 @@ Definition run_thunk (fl : flavour) (cfg : ucfg) (s : sess) (t : thunk) : sess *
       | CnJoin =>
           if sid_truthy s then (s, [Called CbConnect])                 (* join: "session already joined" *)
           else if negb (transport s) then (s, [Called CbConnect])      (* join: "no transport set for session" *)
-          else let s1 := set_goodbye s false in
+          else let s1 := set_join s in      (* self._goodbye_sent = False; self._request_id_gen = IdGenerator() *)
                let '(o, _) := send cfg s1 MHello in (s1, Called CbConnect :: o)
       end
   | TWelcomeK o sidv =>
@@ -802,7 +810,8 @@ Definition unsub_step (fl : flavour) (cfg : ucfg) (s : sess) (h : N) : sess * li
             | [] =>
                 let '(s1, id, f) := new_request s0 KUnsubscribe None subid in
                 let '(o1, ok) := send_req cfg s1 (MUnsubscribe id subid) in
-                (s1, o1 ++ [if ok then ApiReturned (Some f) else ApiRaised (send_exn s1)])
+                if ok then (s1, o1 ++ [ApiReturned (Some f)])
+                else (drop_request s1 KUnsubscribe id f, o1 ++ [ApiRaised (send_exn s1)])
             | _ :: _ =>
                 (* txaio.create_future_success(scount): a future that already has its result *)
                 let f := next_fut s0 in
